@@ -290,7 +290,7 @@ def run(tier: str, seed: int) -> core.Report:
             sig = f"C01:{v['why']}"
             rep.violations.append(core.Violation(PROP, v["why"], sig, {"case": c}, {"events": t["events"][:50], "step": v["step"]}))
     need = {"reg", "reg-during-teardown", "pass", "plain", "cb-raised", "grouped", "cancelled", "clean", "own-exception"}
-    if not need <= set(hits):
+    if not need <= set(hits) and not rep.violations:
         raise core.MachineryError(f"vacuous: monitor clauses never exercised: {sorted(need - set(hits))}")
     rep.distinct_nontrivial = len(nontrivial)
     rep.rule = (f"{len(programs)} programs enumerated by TLC: all sequences of <= 2 callbacks over kind {{ok, Exception, BaseException}} x sync/async x "
